@@ -60,7 +60,8 @@ def process_part(ctx):
             base = dict(GridSize=32, rotations=0.05, StepsPerTs=40, output="o.h5")
             if cfgtext is not None:
                 base.pop(cfgtext.split("=")[0].strip(), None)     # an option given on the command line is never read from the file
-            res = prog.run_inovesa("rel", base, d, xdg, timeout=120, extra_args=argv_extra, config=cfg)
+            # a third of these runs in a process environment that differs in things that are no option (prog.envmix): locale names, HOME, TZ, umask
+            res = prog.run_inovesa("rel", base, d, xdg, timeout=120, extra_args=argv_extra, config=cfg, env=prog.envmix(core.Rng("c20env", ctx.seed, i), 0.34)[0])
         return kind, extra, cfgtext, must_fail, res, os.path.exists(os.path.join(d, "o.h5"))
 
     for kind, extra, cfgtext, must_fail, res, created in core.pmap(one, list(enumerate(cases))):
@@ -118,7 +119,7 @@ def effective_part(ctx):
         with open(os.path.join(d, "in.cfg"), "w") as fh:
             fh.write(cfgtext)
         eff = vcli if where in ("cli", "both") else vcfg
-        res = prog.run_inovesa("rel", opts, d, os.path.join(sdir, "xdg%d" % (i % 4)), timeout=120, config="in.cfg")
+        res = prog.run_inovesa("rel", opts, d, os.path.join(sdir, "xdg%d" % (i % 4)), timeout=120, config="in.cfg", env=prog.envmix(core.Rng("c20env2", ctx.seed, i), 0.5)[0])
         P = physics.derive({name: eff})
         m = re.search(r"Doing ([0-9.eE+-]+) simulation steps per (synchrotron|revolution) period", res["out"])
         return dict(i=i, name=name, where=where, cli=vcli, cfg=vcfg, effective=eff, res=res, m=m, P=P, cfgtext=cfgtext)
@@ -224,6 +225,45 @@ def filename_part(ctx):
             ctx.violation("C20:effective:filename:" + o["name"] + ":wrong_start", "the run did not start from the distribution named with the highest precedence", dict(w, dev_from_expected=e_ref, dev_from_other=e_oth))
 
 
+def history_part(ctx):
+    """'... else the documented default': what an option that is given nowhere evaluates to must not depend on what earlier runs left behind at the
+    target path or in the working directory (a results file, the .cfg the program saved next to it, a log) - the run is started without any
+    --config option, a second time into the same output path with fewer options, and compared with the same invocation into a fresh directory."""
+    sdir = os.path.join(ctx.scratch(), "hist")
+    os.makedirs(sdir, exist_ok=True)
+    xdg = os.path.join(sdir, "xdg")
+    r = core.Rng("c20hist", ctx.seed)
+    small = dict(GridSize=32, rotations=0.02, StepsPerTs=40)
+    earlier = [dict(BeamEnergy=2.5e9, BunchCurrent=[2e-3]), dict(AcceleratingVoltage=7e5, HarmonicNumber=200, DampingTime=0.02), dict(VacuumGap=0.05, BendingRadius=6.0, alpha0=2e-3),
+               dict(Impedance="/dev/null", CutoffFreq=1e10, padding=4.0)]
+
+    def one(i):
+        d, dref = os.path.join(sdir, "h%d" % i), os.path.join(sdir, "h%dref" % i)
+        os.makedirs(d, exist_ok=True); os.makedirs(dref, exist_ok=True)
+        outname = ["o.h5", os.path.join(d, "o.h5"), "sub/o.h5", "o.h5"][i % 4]
+        os.makedirs(os.path.join(d, "sub"), exist_ok=True); os.makedirs(os.path.join(dref, "sub"), exist_ok=True)
+        logopt = {"verbose": True} if i % 2 else {}
+        ra = prog.run_inovesa("rel", dict(small, output=outname, **dict(earlier[i % len(earlier)], **logopt)), d, xdg, timeout=120, config=False)
+        rb = prog.run_inovesa("rel", dict(small, output=outname), d, xdg, timeout=120, config=False)
+        refname = os.path.join(dref, "o.h5") if os.path.isabs(outname) else outname
+        rr = prog.run_inovesa("rel", dict(small, output=refname), dref, xdg, timeout=120, config=False)
+        return dict(i=i, ra=ra, rb=rb, rr=rr, fb=os.path.join(d, outname), fr=os.path.join(dref, refname), earlier=earlier[i % len(earlier)])
+
+    for o in core.pmap(one, list(range(4))):
+        ctx.case("history:%d" % o["i"])
+        w = dict(earlier_run_options=o["earlier"], cmd_earlier=" ".join(o["ra"]["argv"]), cmd=" ".join(o["rb"]["argv"]), cmd_fresh_directory=" ".join(o["rr"]["argv"]))
+        if any(prog.program_outcome_key(x) or x["rc"] != 0 for x in (o["ra"], o["rb"], o["rr"])) or not (os.path.exists(o["fb"]) and os.path.exists(o["fr"])):
+            ctx.inconcl("history part %d: a run failed: %s" % (o["i"], (o["ra"]["err"] + o["rb"]["err"] + o["rr"]["err"])[-200:]))
+            continue
+        pb, pr = prog.H5(o["fb"]).params(), prog.H5(o["fr"]).params()
+        ctx.ev("runs_into_a_path_with_history", 1)
+        ctx.ev("effective_values_compared_with_a_fresh_directory", len(pr))
+        diff = sorted(k for k in set(pb) | set(pr) if repr(pb.get(k)) != repr(pr.get(k)))
+        if diff:
+            ctx.violation("C20:effective:history:" + diff[0], "options given nowhere do not take their defaults when an earlier run left files at the target path: the effective values differ from the same invocation in a fresh directory",
+                          dict(w, differing=dict((k, [repr(pb.get(k)), repr(pr.get(k))]) for k in diff[:8])))
+
+
 def run(ctx):
     ctx.assumptions = ASSUME
     ctx.rule = ("API: every option independently placed on the command line / in the config file / in both (different values) / nowhere, with random legal values (incl. values needing 9/17 digits, 1-5 bunch currents), "
@@ -234,4 +274,5 @@ def run(ctx):
     process_part(ctx)
     effective_part(ctx)
     filename_part(ctx)
-    ctx.min_events = {"file_name_precedence_runs": 6, "parses": 2000, "option_values_checked": 100000, "cli_vs_config_conflicts_checked": 3000, "alias_uses_checked": 500, "process_runs": 30, "effective_values_checked_in_program_runs": 6, "effective_damping_times_checked": 2}
+    history_part(ctx)
+    ctx.min_events = {"file_name_precedence_runs": 6, "parses": 2000, "option_values_checked": 100000, "cli_vs_config_conflicts_checked": 3000, "alias_uses_checked": 500, "process_runs": 30, "effective_values_checked_in_program_runs": 6, "effective_damping_times_checked": 2, "runs_into_a_path_with_history": 3}
